@@ -1,4 +1,17 @@
 ------------------------------ MODULE MCContent ------------------------------
 (* Model-checking instances of Content: all bounds are plain constants set in the ct_*.cfg files. *)
 EXTENDS Content
+
+Cont(u, c, v) == [units |-> u, cuts |-> c, valid |-> v]
+CatNone == {}
+\* valid contents cut inside a character / with an empty chunk, and truncated ones (their flush raises)
+CatQuick == { Cont(<<"L2", "C">>, <<1, 1>>, TRUE),
+              Cont(<<"A">>, <<1>>, TRUE),
+              Cont(<<"L3", "C", "C", "A">>, <<2, 2>>, TRUE),
+              Cont(<<"A", "L2">>, <<2>>, FALSE),
+              Cont(<<"L3", "C">>, <<1, 1>>, FALSE) }
+CatBig == CatQuick \cup { Cont(<<"A", "L2", "C">>, <<2, 0, 1>>, TRUE),
+                          Cont(<<"L4", "C", "C", "C">>, <<1, 2, 1>>, TRUE),
+                          Cont(<<"L4", "C", "C">>, <<3>>, FALSE),
+                          Cont(<<>>, <<>>, TRUE) }
 =============================================================================
